@@ -11,6 +11,8 @@ MC = 'explicit-state model checking of the implementation (exhaustive search ove
 CHECKS = {
     'C01': ('exploration', 'every circuit over the operator/node library with <=2 (thorough 3) nodes and every edge multiset of size <=2 (3), hierarchy, edge templates, vectorize on/off is compiled by the real code and compared per frontend variable with an independent dict-state reference semantics at a base point plus all single deviations of every state variable and constant',
             'finite probe alphabet instead of all reals; models larger than the bounds and operators outside the library are not covered; reference semantics (pyx/refsem) is trusted and self-tested', EXPL, 'DESIGN.md 3 C01'),
+    'C05': ('exploration', 'every operator-labelled expression skeleton with <=3 (thorough 4) operator nodes over + - * / ^, unary minus and the documented functions, leaves from colliding identifier sets, in 4 surface variants and 3 equation forms, evaluated on both paths of the real code (parser + eval_node; generated source) at 3 valuations and compared with python-ast/NumPy evaluation',
+            'finite valuations instead of all reals; expressions larger than the bound; index helpers on arrays are covered by C01/C04/C09 models only; valuations outside the real domain of an expression are rejected', EXPL, 'DESIGN.md 3 C05'),
     'C19': ('model_checking', 'explicit-state search of all update sequences up to depth 6/7 on the real DDEHistory class, every query of a lattice checked in every state against a list-based reference',
             'values outside the finite alphabets (3 deltas, 3 y vectors, 3 shapes, 3 dtypes) and sequences longer than the bound are not covered, except one 3000-step run through the real capacity', MC, 'DESIGN.md 3 C19'),
 }
